@@ -68,7 +68,8 @@ def rebaseOf (j : Json) : Except String RebaseFacts := do
   pure { orig := ← getNatField j "orig", onto := ← getNatField j "onto",
          upstreamArg := ← getNatField j "upstreamArg", branchArg := ← optNat j "branchArg", interactive := boolD j "interactive" false,
          chain := ← natList j "chain", newChain := ← natList j "newChain", pairs := ← pairList j "pairs",
-         newHead := ← getNatField j "newHead", inner := inner, wlAtOrig := boolD j "wlAtOrig" false }
+         newHead := ← getNatField j "newHead", inner := inner, wlAtOrig := boolD j "wlAtOrig" false,
+         autostash := boolD j "autostash" false }
 
 def resetKindOf : String → Except String ResetKind
   | "hard" => pure .hard | "soft" => pure .soft | "mixed" => pure .mixed
